@@ -176,6 +176,8 @@ int tconnect_connect(struct tconnect *tconnect, const struct xcm_addr_ip *local_
 __CPROVER_requires(tconnect != NULL && (local_ip == NULL || __CPROVER_r_ok(local_ip, sizeof(*local_ip))) && __CPROVER_r_ok(tcp_opts, sizeof(*tcp_opts)) && B_OPTS_VALID(tcp_opts))
 __CPROVER_requires(num_remote_ips >= 1 && num_remote_ips <= XCM_DNS_MAX_RESULT_SIZE && __CPROVER_r_ok(remote_ips, num_remote_ips * sizeof(*remote_ips)))
 __CPROVER_requires(tcp_connect_timeout >= 0 && B_SO_RANGE && XB_EXT(xb_tc_connects))
+/* (same precondition as in contracts/dnstc.h, where tconnect_connect is enforced: -1 = not set, otherwise an interface index) */
+__CPROVER_requires(scope >= -1 && scope <= (int64_t)UINT32_MAX)
 __CPROVER_assigns(xv_errno, XP_REG_ROW, B_SO_ASSIGNS, xb_tc_connects, xv_lower_dead)
 __CPROVER_ensures(__CPROVER_return_value == 0 || (__CPROVER_return_value == -1 && xv_errno > 0 && xv_errno != EAGAIN))
 __CPROVER_ensures(XB_KILLS_IF(__CPROVER_return_value == -1))
@@ -264,7 +266,7 @@ static inline void xb_ghost_havoc(void)
  * bad => the stored errno is a real one and not EAGAIN (C06: it is what every later call reports);
  * closed => the kernel has reported end of stream (C06: "once the close has been seen") */
 #define BT_CONN_OK(s) (BT_CONN_OK_BUT_EOF(s) && (BT_IS(s, closed) ==> xv_rx_eof))
-#define BT_CONN_OK_BUT_EOF(s) ((s)->type == xcm_socket_type_conn && \
+#define BT_CONN_OK_BUT_EOF(s) ((s)->type == xcm_socket_type_conn && BT(s)->scope >= -1 && BT(s)->scope <= (int64_t)UINT32_MAX && \
         BST(s) >= conn_state_resolving && BST(s) <= conn_state_bad && \
         (BT_IS(s, resolving) ==> (BT(s)->conn.query != NULL && BT(s)->conn.tconnect != NULL && BT(s)->fd == -1 && BT(s)->fd_reg_id == -1)) && \
         (BT_IS(s, connecting) ==> (BT(s)->conn.tconnect != NULL && BT(s)->fd == -1 && BT(s)->fd_reg_id == -1)) && \
